@@ -68,6 +68,9 @@ func runC07(c *Ctx) {
 		c.analysed(relName(f))
 		name := relName(f)
 		isReply := func(i ssa.Instruction) bool {
+			if rh, _ := k.rejectCall(i); rh != nil {
+				return true // a summarised reject helper answers exactly once when the channel is non-nil
+			}
 			s, ok := i.(*ssa.Send)
 			return ok && isErrorChan(s.Chan.Type())
 		}
@@ -106,6 +109,18 @@ func runC07(c *Ctx) {
 			}
 		}
 		for _, i := range allInstrs(f) {
+			if rh, call := k.rejectCall(i); rh != nil {
+				ev := call.Call.Args[rh.errP]
+				noStore := true
+				for _, st := range stores {
+					if domI(st, call) {
+						noStore = false
+					}
+				}
+				c.check(knownNil(call.Block(), ev, false) && noStore, "answer-value", name+"#error-answer", call.Pos(),
+					"the reject helper is called with an error tested non-nil, where nothing was stored", "the reject helper answers an error that is not known non-nil, or after a store")
+				continue
+			}
 			s, ok := i.(*ssa.Send)
 			if !ok || !isErrorChan(s.Chan.Type()) {
 				continue
